@@ -64,9 +64,10 @@ P = {
         "rule": "one scenario = 1-3 services of the registry (every director-less service in rotation) + an echo liveness port, 1-4 interleaved connections per service instance each carrying a grammar dialogue, a truncation/mutation of one (length fields, reordering, repetition, out-of-state commands) or raw bytes (<=64 KiB) under seeded segmentation, ended by close / reset / half-close / silence past the idle deadline / a stalled peer; distinct = distinct trace digest; non-trivial = several connections, a mutated input or a fault",
         "components": comp(real=["all 24 director-less services (real handlers)", "per-connection recover in server.handle"]),
         "assumptions": ["process-level outcomes (exit status, panic:/fatal error: banner, CPU seconds and RSS per step) are observed by the driver from outside the worker", "interleavings finer than one delivered segment only through same-step batch release"],
-        "stall_s": 60,
+        "stall_s": 25,
         "rss_mb": 2500,
         "single_timeout": 240,
+        "min_budget": 48,
     },
     "C09": {
         "runs": {"quick": 2000, "thorough": 200000},
@@ -74,9 +75,10 @@ P = {
         "rule": "one scenario = the hostile inputs of C01 (1-3 services, 1-3 interleaved connections each) ended by client close / reset / half-close / silence / a stalled peer, or a history of N in {1,2,3,10,50,200} sequential connections to one service (incl. FTP PASV/EPSV never connected to), followed by 10 simulated minutes on the fake clock; distinct = distinct trace digest; non-trivial = several connections, a fault, or a history",
         "components": comp(real=["all 24 director-less services (real handlers)", "timeoutConn 30 s idle deadline", "ftp passive listener (over simnet)"]),
         "assumptions": ["goroutines are attributed to the run by their synctest bubble id; only goroutines with honeytrap frames are counted", "heap retained per past connection is not asserted"],
-        "stall_s": 60,
+        "stall_s": 25,
         "rss_mb": 2500,
         "single_timeout": 240,
+        "min_budget": 48,
     },
     "C03": {
         "runs": {"quick": 2500, "thorough": 300000},
